@@ -42,9 +42,16 @@ Valid(d) ==
   /\ \A i \in 1..N(d) : Wt(d, i) >= 1
   /\ \A i \in 1..(N(d) - 1) : Mean(d, i) <= Mean(d, i + 1)
   /\ d.min <= Mean(d, 1) /\ Mean(d, N(d)) <= d.max
-  \* a first / last centroid holding a single sample is that extreme sample
-  /\ (Wt(d, 1) = 1 => Mean(d, 1) = d.min)
-  /\ (Wt(d, N(d)) = 1 => Mean(d, N(d)) = d.max)
+  \* min and max are samples: each sits in some centroid, alone (weight 1, mean = the extreme) or
+  \* with w - 1 other samples of [min, max] (so the centroid's sum leaves room for it).  The first
+  \* centroid need not hold the minimum: a heavier centroid of larger mean may have absorbed it
+  \* (a decoded heavy-first digest updated with a value between min and that centroid's mean);
+  \* such states are written to images like any other.
+  /\ \E j \in 1..N(d) : IF Wt(d, j) = 1 THEN Mean(d, j) = d.min
+                         ELSE Mean(d, j) * Wt(d, j) <= d.min + (Wt(d, j) - 1) * d.max
+  /\ \E j \in 1..N(d) : IF Wt(d, j) = 1 THEN Mean(d, j) = d.max
+                         ELSE Mean(d, j) * Wt(d, j) >= d.max + (Wt(d, j) - 1) * d.min
+  /\ (W(d) = 1 => d.min = d.max)
 
 (* ---- rank ------------------------------------------------------------------ *)
 \* first index (1-based) whose mean is >= v / > v, N+1 if none (the two binary searches)
@@ -55,6 +62,12 @@ UpperIdx(d, v) == IF \E i \in 1..N(d) : RLt(v, RI(Mean(d, i)))
                   THEN CHOOSE i \in 1..N(d) : RLt(v, RI(Mean(d, i))) /\ \A j \in 1..(i - 1) : RLe(RI(Mean(d, j)), v)
                   ELSE N(d) + 1
 
+\* Between an extreme and the nearest centroid mean the rank runs from the extreme's own sample
+\* (weight 1, counted from its far side) up to half that centroid's weight.  A centroid of a single
+\* sample that is not the extreme has no sample on that side: the rank stays at its half weight
+\* (the reference formula 1 + f * (w/2 - 1) would run backwards there).
+TailBase(wt) == IF wt = 1 THEN RHalf(1) ELSE RI(1)
+
 Rank(d, v) ==
   LET w == W(d)  n == N(d)  fm == Mean(d, 1)  lm == Mean(d, n) IN
   IF RLt(v, RI(d.min)) THEN RI(0)
@@ -64,12 +77,12 @@ Rank(d, v) ==
   THEN \* left tail: between min and the first mean sit (w1/2 - 1) samples after the one at min
        IF fm - d.min > 0
        THEN IF REq(v, RI(d.min)) THEN <<1, 2 * w>>
-            ELSE RDiv(RAdd(RI(1), RMul(RDiv(RSub(v, RI(d.min)), RI(fm - d.min)), RSub(RHalf(Wt(d, 1)), RI(1)))), RI(w))
+            ELSE RDiv(RAdd(TailBase(Wt(d, 1)), RMul(RDiv(RSub(v, RI(d.min)), RI(fm - d.min)), RSub(RHalf(Wt(d, 1)), TailBase(Wt(d, 1))))), RI(w))
        ELSE RI(0)
   ELSE IF RLt(RI(lm), v)
   THEN IF d.max - lm > 0
        THEN IF REq(v, RI(d.max)) THEN RSub(RI(1), <<1, 2 * w>>)
-            ELSE RSub(RI(1), RDiv(RAdd(RI(1), RMul(RDiv(RSub(RI(d.max), v), RI(d.max - lm)), RSub(RHalf(Wt(d, n)), RI(1)))), RI(w)))
+            ELSE RSub(RI(1), RDiv(RAdd(TailBase(Wt(d, n)), RMul(RDiv(RSub(RI(d.max), v), RI(d.max - lm)), RSub(RHalf(Wt(d, n)), TailBase(Wt(d, n))))), RI(w)))
        ELSE RI(1)
   ELSE \* between two centroid means (equal-mean runs included)
     LET lo0 == LowerIdx(d, v)  up0 == UpperIdx(d, v)
